@@ -89,7 +89,7 @@ def r5_cells(text, fields, recv='self'):
     """R5: interior-mutability erasure for the listed fields of `recv`."""
     fired = 0
     fre = '(?:' + '|'.join(map(re.escape, fields)) + ')'
-    base = re.escape(recv) + r'\.(' + fre + r')'
+    base = r'(?<![\w.])' + re.escape(recv) + r'\s*\.\s*(' + fre + r')'
 
     def sub_call(method, fmt):
         nonlocal text, fired
@@ -124,6 +124,31 @@ def r5_cells(text, fields, recv='self'):
     sub_call('increment', '{f} = {f} + 1')
     sub_call('decrement', '{f} = {f} - 1')
     return text, fired
+
+
+def r5_alias(text, name, path, field):
+    """R5 for a cell reached through a local alias: `let NAME = <expr>.FIELD();` (an accessor returning the
+    &Cell) is erased and every `NAME.` becomes `PATH.FIELD.`; the ordinary R5 method rewrites then apply with
+    receiver PATH.  The cell is thereby treated as owned by PATH (aliasing through other handles dropped)."""
+    fired = 0
+    m = mask(text)
+    hits = list(re.finditer(r'let\s+%s\s*=\s*[^;]*?\.%s\(\)\s*;' % (re.escape(name), re.escape(field)), m))
+    for mo in reversed(hits):
+        text = _del_stmt(text, mo.start(), mo.end())
+        fired += 1
+    if not hits:
+        return text, 0
+    m = mask(text)
+    out, last = [], 0
+    for mo in re.finditer(r'(?<![\w.])%s\.' % re.escape(name), m):
+        out.append(text[last:mo.start()])
+        out.append('%s.%s.' % (path, field))
+        last = mo.end()
+        fired += 1
+    out.append(text[last:])
+    text = ''.join(out)
+    text, n = r5_cells(text, [field], path)
+    return text, fired + n
 
 
 def r5_types(text, fields):
